@@ -117,6 +117,8 @@ pub fn profile_from(s: &str) -> Profile {
 /// Run `runs` random simulations spread over `profiles`, seeds derived from (seed, property, i).
 pub fn campaign(target: &str, rules: &[&str], seed: u64, thorough: bool, profiles: &[Profile], runs: u64, wall_cap_s: u64) -> Agg {
     install_panic_hook();
+    // development knob only: shrink the SIM campaign (never set by the registered commands)
+    let runs = std::env::var("VMON_DEV_SIM_RUNS").ok().and_then(|s| s.parse().ok()).unwrap_or(runs);
     let next = AtomicU64::new(0);
     let stop = AtomicBool::new(false);
     let agg = Mutex::new(Agg::new(rules));
@@ -983,7 +985,8 @@ pub fn run_c06(id: &str, tier: &str, seed: u64) -> i32 {
     let mut inconclusive: Vec<String> = vec![];
     match std::env::var("VMON_PLUGIN_BIN") {
         Ok(bin) => {
-            let r = crate::e2e_checks::c06_e2e(&bin, seed, if thorough { 3000 } else { 120 }, if thorough { 60 } else { 0 });
+            let asan = std::env::var("VMON_PLUGIN_ASAN_BIN").ok().filter(|p| std::path::Path::new(p).exists()).map(|p| (p, if thorough { 400 } else { 0 }));
+            let r = crate::e2e_checks::c06_e2e(&bin, seed, if thorough { 3000 } else { 120 }, if thorough { 60 } else { 0 }, asan);
             extra["e2e"] = r.coverage;
             extra["e2e_rule_evaluations"] = json!(r.evals);
             for (k, (n, w)) in r.violations {
